@@ -69,6 +69,15 @@ def cases(plan, tier, shard, nshards, host):
             yield {"kind": "prog", "ver": rec["ver"], "id": rec["id"], "pyc": rec["pyc"], "P": P,
                    "codes": [{"name": c["name"], "len": c["len"], "ops": [[i[0], i[1], i[3], i[2]] for i in c["insts"]]} for c in rec["codes"]]}
     if host == common.PRIMARY:
+        # the alternate_opmap route (disasm.get_opcode / disco / disassemble_file take one): the table is re-derived in place,
+        # once per process, so each (version, map) runs in a forked child
+        na = 0
+        for v in common.REFS:
+            for how in ("identity", "empty", "swap"):
+                na += 1
+                if na % nshards == shard:
+                    yield {"kind": "altmap", "ver": list(common.vt(v)), "how": how, "path": plan["progs"][v]}
+    if host == common.PRIMARY:
         # compiler-produced code of every version in the historical corpus (incl. 1.x, 2.0-2.6, 3.0-3.5, PyPy):
         # reference = M-dis (conformance-checked above against all nine interpreters) fed with the table xdis picks
         import glob
@@ -125,11 +134,13 @@ def case_key(c):
         return "raw:%s:%s" % (c["ver"], c["code"])
     if c["kind"] == "prog":
         return "prog:%s:%s" % (c["ver"], c["id"])
+    if c["kind"] == "altmap":
+        return "altmap:%s:%s" % (c["ver"], c["how"])
     return "mdis:%s:%s" % (c["table"], c["streams_from"])
 
 
 def describe(c):
-    if c["kind"] in ("skip", "corpus"):
+    if c["kind"] in ("skip", "corpus", "altmap"):
         return c
     if c["kind"] == "raw":
         return {"kind": "raw", "version": c["ver"], "co_code": c["code"][:64], "tag": c["tag"], "reference_ops": c["ops"][:6]}
@@ -191,8 +202,91 @@ def _argclass(a):
     return ">=2^24"
 
 
+def run_altmap(case, ctx):
+    """alternate_opmap: with the version's own map (or an empty one) the table must decode as before; with two operand-taking
+    opcodes exchanged, code whose opcode bytes are exchanged the same way must decode to the original instructions"""
+    import io
+    import json
+    import os
+
+    r, w = os.pipe()
+    pid = os.fork()
+    if pid == 0:
+        out = []
+        try:
+            os.close(r)
+            from xdis.bytecode import get_instructions_bytes
+            from xdis.disasm import get_opcode
+            from xdis.load import load_module_from_file_object
+
+            from vlib.xcanon import walk_xcodes
+
+            ver = tuple(case["ver"])
+            opc = get_opcode(ver, False)
+            codes = []
+            n = 0
+            for idx, rec in common.read_dataset(case["path"]):
+                if idx < 0 or not rec["id"].endswith("@module"):
+                    continue
+                n += 1
+                if n > 60:
+                    break
+                co = load_module_from_file_object(io.BytesIO(unhx(rec["pyc"])))[3]
+                for c in walk_xcodes(co):
+                    codes.append((rec["id"] + "/" + c.co_name, c))
+            ref = [[(i.offset, i.opname, i.arg) for i in get_instructions_bytes(c.co_code, opc)] for _, c in codes]
+            amap, a, b = {}, None, None
+            if case["how"] == "identity":
+                amap = dict(opc.opmap)
+            elif case["how"] == "swap":
+                a, b = opc.opmap.get("LOAD_NAME"), opc.opmap.get("STORE_NAME")
+                amap = {"LOAD_NAME": b, "STORE_NAME": a}
+            opc2 = get_opcode(ver, False, alternate_opmap=amap)
+            for (where, c), rf in zip(codes, ref):
+                code = bytearray(c.co_code)
+                if case["how"] == "swap":
+                    for (off, name, arg) in rf:
+                        if code[off] == a:
+                            code[off] = b
+                        elif code[off] == b:
+                            code[off] = a
+                got = [(i.offset, i.opname, i.arg) for i in get_instructions_bytes(bytes(code), opc2)]
+                if got != rf:
+                    k = next((j for j, (x, y) in enumerate(zip(got, rf)) if x != y), min(len(got), len(rf)))
+                    out.append(["%d.%d:altmap:%s" % (ver[0], ver[1], case["how"]), "with alternate_opmap (%s) instruction %d is %r, was %r (%s)"
+                                % (case["how"], k, got[k] if k < len(got) else None, rf[k] if k < len(rf) else None, where)])
+                    break
+            out.append(["__count__", len(codes)])
+        except BaseException as e:  # noqa
+            out.append(["%d.%d:altmap:%s:raises:%s" % (case["ver"][0], case["ver"][1], case["how"], type(e).__name__), repr(e)[:200]])
+        try:
+            os.write(w, json.dumps(out).encode())
+        finally:
+            os._exit(0)
+    os.close(w)
+    buf = b""
+    while True:
+        chunk = os.read(r, 65536)
+        if not chunk:
+            break
+        buf += chunk
+    os.close(r)
+    os.waitpid(pid, 0)
+    if not buf:
+        ctx.violation("altmap:child-died", "no result from the child for %r" % (case["how"],))
+        return
+    for sig, msg in json.loads(buf.decode()):
+        if sig == "__count__":
+            ctx.count("altmap_code_objects", msg)
+        else:
+            ctx.violation(sig, msg)
+
+
 def run_case(case, ctx):
     from xdis.bytecode import get_instructions_bytes
+
+    if case["kind"] == "altmap":
+        return run_altmap(case, ctx)
 
     if case["kind"] == "mdis-table":
         return run_mdis_table(case, ctx)
